@@ -128,6 +128,9 @@ impl<'a> SnippetBuilder<'a> {
 
     /// Build and send the Snippet to the ErrorReporter in the QueryContainer.
     pub fn send_report(self) {
+        // annotate-snippets indexes the source by character, the parser reports byte offsets
+        let source = self.data.source.as_str();
+        let to_chars = |byte: usize| source.char_indices().take_while(|(i, _)| *i < byte).count();
         self.query.reporter.handle_error(Snippet {
             title: Some(Annotation {
                 label: Some(self.data.error.as_str()),
@@ -144,7 +147,7 @@ impl<'a> SnippetBuilder<'a> {
                     .annotations
                     .iter()
                     .map(|anno| SourceAnnotation {
-                        range: anno.0,
+                        range: (to_chars(anno.0 .0), to_chars(anno.0 .1)),
                         label: anno.1.as_str(),
                         annotation_type: AnnotationType::Error,
                     })
